@@ -57,7 +57,7 @@ def run(prop, tier, seed, replay=None):
                        "ThreadSanitizer covers the finer grain only for interleavings that actually occurred in the stress runs",
                        "helgrind is not used: the relaxed std::atomic hints would be reported as false races"]
     try:
-        exe_t = build.build_bin("tsan", "concmon")
+        exe_t = build.build_bin("tsan", "concmon", libs=("-ldl",))
         exe_a = build.build_bin("asan", "concmon")
     except build.BuildError as e:
         chk.inconclusive_because("build failed: %s" % str(e)[-1500:])
@@ -127,6 +127,12 @@ def run(prop, tier, seed, replay=None):
             args_e += ["--only-case", str(ra["case"])]
         res, rc = core.run_monitor(exe_a, args_e, build.san_env("asan"), out_e, timeout=3600 if thorough else 900)
         legs.append(("exit-asan", res))
+    # (1e) a zone source that takes seconds: waiting loaders neither enter it nor give up
+    if not ra or ra.get("leg") == "slow-asan":
+        out_w = os.path.join(chk.workdir, "slow-asan")
+        args_w = ["--mode", "slow", "--zones", zones, "--seed", str(seed), "--hold-ms", "25000" if thorough else "6000", "--workers", "2", "--case-timeout", "300"]
+        res, rc = core.run_monitor(exe_a, args_w, build.san_env("asan"), out_w, timeout=900)
+        legs.append(("slow-asan", res))
     # (1b) stress under ASan (C20's log checker does not need TSan; different timing)
     if prop == "C20" and (not ra or ra.get("leg") == "stress-asan"):
         out_a = os.path.join(chk.workdir, "stress-asan")
